@@ -41,6 +41,8 @@ def pool():
                                                         'modified': '2020-01-01T00:00:00.000Z', 'foo': 1}))
     p.append(('unregistered custom (kept as dict).v2', {'type': 'x-vf-unreg', 'spec_version': '2.1', 'id': 'x-vf-unreg--' + U(8), 'created': '2020-01-01T00:00:00.000Z',
                                                         'modified': '2020-01-02T00:00:00.000Z', 'foo': 2}))
+    p.append(('unregistered custom without modified (stored as a plain file next to versioned ones)', {'type': 'x-vf-unreg', 'spec_version': '2.1', 'id': 'x-vf-unreg--' + U(9),
+                                                                                                      'created': '2020-01-01T00:00:00.000Z', 'foo': 3}))
     return p
 
 
